@@ -161,6 +161,7 @@ package raft
 //@ sectguar [Sdown] old(r.state) == Shutdown ==> r.state == Shutdown
 //@ guar [Gopen] old(logOpen) && r.state != Shutdown ==> logOpen
 //@ guar [Gclk] now >= old(now)
+//@ guar [Grounds] r.operationManager == old(r.operationManager) ==> r.operationManager.rounds >= old(r.operationManager.rounds)
 // GL (leader append-only): used as rely under assumption A-LEAD-ONCE (a node does not enter the
 // leader state twice in one term), without which it is not transitive.
 //@ guar [GL] old(r.state) == Leader && r.state == Leader && r.currentTerm == old(r.currentTerm) ==> Llast >= old(Llast)
@@ -453,6 +454,7 @@ package raft
 //@   ensures [reset] forall fid string :: fid in r.followers ==> r.followers[fid].matchIndex == 0 && r.followers[fid].nextIndex <= Llast + 1
 //@   ensures [I11] r.operationManager != nil && r.operationManager.leaderLease != nil && r.operationManager.pendingReplicated != nil && r.operationManager.pendingReadOnly != nil && (forall o *Operation :: !(o in r.operationManager.pendingReadOnly))
 //@   ensures [lease-fresh] now >= old(now) && (!old(singleMember(r)) ==> r.operationManager.leaderLease.expiration <= now)
+//@   ensures [manager-fresh] fresh(r.operationManager)
 //@   ensures [snapshot-reset] r.snapshot == nil
 //@   ensures [snap-frame] snapSeq == old(snapSeq) && snapIndex == old(snapIndex) && snapTerm == old(snapTerm) && sfNext == old(sfNext) && sfSeq == old(sfSeq)
 //@   ensures [readers] forall fo *follower :: fo.snapshot != nil ==> !sfWriter[fo.snapshot] && allocated(fo.snapshot)
@@ -468,6 +470,15 @@ package raft
 //@ func operationManager.markAsVerified
 //@   flags inline
 //@   loop range r.pendingReadOnly invariant [Gqv] forall o *Operation :: old(allocated(o)) && old(o.quorumVerified) ==> o.quorumVerified
+// Freshness of a confirmation (C05): a round of heartbeats only verifies the reads that were
+// submitted before it was started - a read records the number of rounds started so far
+// (submitReadOnlyOperation.readIndex), a round's goroutines carry its number (spawn-round), the
+// counter only grows while the manager lives (Grounds), and only reads with a smaller number are
+// marked.
+//@ func operationManager.markAsVerifiedBy
+//@   flags inline
+//@   loop range r.pendingReadOnly invariant [Gqv] forall o *Operation :: old(allocated(o)) && old(o.quorumVerified) ==> o.quorumVerified
+//@   loop range r.pendingReadOnly invariant [fresh-only] forall o *Operation :: old(allocated(o)) && o.quorumVerified && !old(o.quorumVerified) ==> o.round < round
 
 //@ func Raft.electionLoop
 
@@ -522,6 +533,7 @@ package raft
 //@   flags splitexits
 //@   assume [A-NOOVF] Llast < 17592186044416
 //@   requires [spawn-self-counted] numResponses != nil ==> *numResponses == selfVote(r)
+//@   requires [spawn-round] round == r.operationManager.rounds && round > 0
 //@   release s1 [leader-id] r.state == Leader && request.Term == r.currentTerm && request.LeaderID == r.id
 //@   release s1 [wf] WF(request) && request.LeaderCommit == r.commitIndex && r.lastIncludedIndex <= request.PrevLogIndex
 //@   release s1 [entries-verbatim] forall j int :: 0 <= j && j < len(request.Entries) ==> request.Entries[j].Term == Lterm[request.PrevLogIndex+1+j] && request.Entries[j].EntryType == Ltyp[request.PrevLogIndex+1+j] && request.Entries[j].Data == Ldata[request.PrevLogIndex+1+j]
@@ -529,7 +541,7 @@ package raft
 //@   at before-assign follower.nextIndex assume [A-HINT] !response.Success ==> newval <= Llast + 1
 //@   at before-assign follower.matchIndex assert [match-sound] response.Success && err == nil && r.state == Leader && r.currentTerm == request.Term && newval == request.PrevLogIndex + len(request.Entries)
 //@   at before-assign *numResponses assert [verify-voters] err == nil && r.state == Leader && r.currentTerm == request.Term && r.configuration.IsVoter[id]
-//@   at call r.tryApplyReadOnlyOperations assert [confirm-quorum] 2 * *numResponses > cntVoters(r.configuration)
+//@   at call r.tryApplyReadOnlyOperations assert [confirm-quorum] 2 * *numResponses > cntVoters(r.configuration) && arg0 == round
 //@   loop for index invariant [entries] nextIndex > r.lastIncludedIndex ==> len(entries) == index - nextIndex && index <= Llast + 1 && forall j int :: 0 <= j && j < len(entries) ==> entries[j] != nil && entries[j].Index == nextIndex + j && entries[j].Term == Lterm[nextIndex+j] && entries[j].EntryType == Ltyp[nextIndex+j] && entries[j].Data == Ldata[nextIndex+j]
 
 //@ func Raft.sendInstallSnapshot
@@ -623,7 +635,7 @@ package raft
 //@   flags inline
 //@   requires readOnlyType == LinearizableReadOnly || readOnlyType == LeaseBasedReadOnly
 //@   ensures [not-leader] old(r.state) != Leader ==> answered[operationFuture.responseCh] && Llast == old(Llast)
-//@   at before-assign r.operationManager.pendingReadOnly[operation] assert [readIndex] r.state == Leader && operation != nil && operation.readIndex == r.commitIndex && !operation.quorumVerified && operation.OperationType == readOnlyType && newval == operationFuture.responseCh
+//@   at before-assign r.operationManager.pendingReadOnly[operation] assert [readIndex] r.state == Leader && operation != nil && operation.readIndex == r.commitIndex && operation.round == r.operationManager.rounds && !operation.quorumVerified && operation.OperationType == readOnlyType && newval == operationFuture.responseCh
 
 //@ func Raft.AddServer
 //@   at call r.appendConfiguration assert [guard] r.state == Leader && committedThisTermSpec(r) && !pendingSpec(r)
@@ -641,7 +653,7 @@ package raft
 
 // Call-graph obligations: who may renew the lease / mark reads as verified.
 //@ callers lease.renew = Raft.tryApplyReadOnlyOperations
-//@ callers operationManager.markAsVerified = Raft.tryApplyReadOnlyOperations
+//@ callers operationManager.markAsVerifiedBy = Raft.tryApplyReadOnlyOperations
 //@ callers Raft.tryApplyReadOnlyOperations = Raft.sendAppendEntries Raft.sendAppendEntriesToPeers
 //@ callers Raft.becomeLeader = Raft.sendRequestVote Raft.sendRequestVoteToPeers
 //@ callers Raft.becomeCandidate = Raft.sendRequestVote Raft.sendRequestVoteToPeers
